@@ -162,6 +162,76 @@ class LoopSpec:
     modifies: tuple = ()
 
 
+# ------------------------------------------------------------------------------------------ front-end normalisation
+class _Rename(ast.NodeTransformer):
+    def __init__(self, mapping):
+        self.mapping = mapping
+
+    def visit_Name(self, node):
+        if node.id in self.mapping:
+            return ast.copy_location(ast.Name(id=self.mapping[node.id], ctx=node.ctx), node)
+        return node
+
+
+def desugar_list_comprehensions(tree: ast.Module) -> ast.Module:
+    """`X = [elt for T in IT]` (statement level, one generator, no conditions) is rewritten, inside function bodies, to
+
+        __lcN = [];  for T' in IT: __lcN.append(elt');  X = __lcN
+
+    which is the definition of the comprehension in the language reference (T is renamed to a fresh name T' when T is used
+    anywhere else in the function, because a comprehension has its own scope).  The loop then takes part in the loop numbering
+    of the function (`loop@k`), so that a sidecar invariant stated for a `for` loop that appends still applies when a maintainer
+    rewrites that loop as a comprehension, and vice versa.  Nothing else is rewritten."""
+    counter = itertools.count()
+
+    def rewrite_body(fn, body):
+        out = []
+        for st in body:
+            for field in ("body", "orelse", "finalbody"):
+                if hasattr(st, field) and isinstance(getattr(st, field), list) and not isinstance(st, (ast.FunctionDef, ast.ClassDef, ast.AsyncFunctionDef)):
+                    setattr(st, field, rewrite_body(fn, getattr(st, field)))
+            if isinstance(st, ast.Try):
+                for h in st.handlers:
+                    h.body = rewrite_body(fn, h.body)
+            val = st.value if isinstance(st, (ast.Assign, ast.AnnAssign)) else None
+            tgt = (st.targets[0] if isinstance(st, ast.Assign) and len(st.targets) == 1 else st.target if isinstance(st, ast.AnnAssign) else None)
+            if isinstance(val, ast.ListComp) and isinstance(tgt, ast.Name) and len(val.generators) == 1 and not val.generators[0].ifs \
+                    and not val.generators[0].is_async:
+                gen = val.generators[0]
+                k = next(counter)
+                acc = f"__lc{k}"
+                bound = {n.id for n in ast.walk(gen.target) if isinstance(n, ast.Name)}
+                inside = {id(n) for n in ast.walk(val)}
+                elsewhere = {n.id for n in ast.walk(fn) if isinstance(n, ast.Name) and id(n) not in inside} | {a.arg for a in ast.walk(fn) if isinstance(a, ast.arg)}
+                mapping = {b: f"__lc{k}_{b}" for b in bound if b in elsewhere}
+                target, elt = gen.target, val.elt
+                if mapping:
+                    target, elt = _Rename(mapping).visit(target), _Rename(mapping).visit(elt)
+                ln, col = st.lineno, st.col_offset
+                init = ast.Assign(targets=[ast.Name(id=acc, ctx=ast.Store())], value=ast.List(elts=[], ctx=ast.Load()))
+                loop = ast.For(target=target, iter=gen.iter, orelse=[], body=[ast.Expr(value=ast.Call(
+                    func=ast.Attribute(value=ast.Name(id=acc, ctx=ast.Load()), attr="append", ctx=ast.Load()), args=[elt], keywords=[]))])
+                fin = ast.Assign(targets=[ast.Name(id=tgt.id, ctx=ast.Store())], value=ast.Name(id=acc, ctx=ast.Load()))
+                for off, node in enumerate((init, loop, fin)):
+                    for n in ast.walk(node):
+                        if not hasattr(n, "lineno"):
+                            n.lineno, n.col_offset, n.end_lineno, n.end_col_offset = ln, col, ln, col
+                    # distinct, increasing positions for the three statements (positions are only used to order statements)
+                    node.lineno, node.col_offset = ln, col + off
+                for n in ast.walk(loop.body[0]):
+                    n.lineno, n.col_offset = ln, col + 2
+                loop.col_offset = col + 1
+                init.targets[0].col_offset = col
+                out.extend([init, loop, fin])
+            else:
+                out.append(st)
+        return out
+
+    for fn in [n for n in ast.walk(tree) if isinstance(n, ast.FunctionDef)]:
+        fn.body = rewrite_body(fn, fn.body)
+    return tree
+
+
 # ------------------------------------------------------------------------------------------ executor
 class Exec:
     def __init__(self, *, source_file: Path, globals_: dict, contracts: dict, models: dict, loop_specs: dict | None = None,
@@ -169,7 +239,7 @@ class Exec:
                  branch_timeout_s: float = 3.0):
         self.source_file = Path(source_file)
         self.src = self.source_file.read_text()
-        self.tree = ast.parse(self.src)
+        self.tree = desugar_list_comprehensions(ast.parse(self.src))
         self.sha256 = hashlib.sha256(self.src.encode()).hexdigest()
         self.globals = globals_  # name -> value (TypeRef / Builtin / constants / Closure) for module-level names
         self.contracts = contracts  # name -> callable(ex, ctx, args, kwargs) -> list[(ctx, value|ExcVal)]
@@ -186,6 +256,7 @@ class Exec:
         self.used_contracts: set[str] = set()
         self.used_models: set[str] = set()
         self.current_fn = ""
+        self._resolving: set[str] = set()
 
     # ---------------------------------------------------------------- helpers
     def fresh(self, prefix, sort):
@@ -784,6 +855,19 @@ class Exec:
             return [(ctx, ("__heap__", e.id))]
         if e.id in self.globals:
             return [(ctx, self.globals[e.id])]
+        # a module-level constant NAME = <expression>, assigned exactly once at module level: evaluate its defining expression
+        # (in the module's global scope; it must evaluate without branching) and remember it
+        defs = [st for st in self.tree.body if isinstance(st, (ast.Assign, ast.AnnAssign)) and st.value is not None and
+                any(isinstance(t, ast.Name) and t.id == e.id for t in (st.targets if isinstance(st, ast.Assign) else [st.target]))]
+        if len(defs) == 1 and e.id not in self._resolving:
+            self._resolving.add(e.id)
+            try:
+                outs = self.eval(defs[0].value, Ctx(env={}))
+            finally:
+                self._resolving.discard(e.id)
+            if len(outs) == 1 and not isinstance(outs[0][1], ExcVal) and not outs[0][0].pc:
+                self.globals[e.id] = outs[0][1]
+                return [(ctx, outs[0][1])]
         raise GenError(f"unresolved name {e.id!r} at line {e.lineno} of {self.current_fn}")
 
     def e_Tuple(self, e, ctx):
@@ -1374,6 +1458,9 @@ def accumulators(fnode, ordinal: int):
                  before the loop) -- the loop-carried state;
     `appended` : names X with `X.append(..)` in the body, in order of their first assignment before the loop."""
     loops = sorted([n for n in ast.walk(fnode) if isinstance(n, ast.For)], key=lambda n: (n.lineno, n.col_offset))
+    if ordinal >= len(loops):
+        raise GenError(f"the sidecar contract states an invariant for loop@{ordinal} of {getattr(fnode, 'name', '?')}, which now has {len(loops)} loop(s): "
+                       "the function was restructured and its loop invariants have to be re-stated")
     loop = loops[ordinal]
     pre = []
     for n in ast.walk(fnode):
